@@ -493,6 +493,14 @@ class Interp:
                 return [v.attrs[f] for f in v.fields]
             if getattr(v, 'items_list', None) is not None:
                 return list(v.items_list)
+        if isinstance(v, ClassRef):
+            # iterating an enum class yields its members (in definition order)
+            cls = v.info
+            names = [t.id for st in getattr(cls.node, 'body', []) if isinstance(st, ast.Assign)
+                     for t in st.targets if isinstance(t, ast.Name) and not t.id.startswith('_')]
+            vals = [hdl.class_attr(self, cls, n) for n in names]
+            if names and all(isinstance(x, EnumVal) or (isinstance(x, int) and not isinstance(x, bool)) for x in vals):
+                return vals
         return None
 
     def collection_elem(self, coll):
@@ -1457,19 +1465,27 @@ _EQSITES = {}
 
 
 def _eq_sites(index, relpath, name):
-    """Number of places in a file where the local `name` is the target of `.eq(` (plain or inside a Cat on the left)."""
+    """Number of places in a file where the local `name` is the target of `.eq(` (plain or subscripted).  Counted on the
+    syntax tree the extractor interprets (after alpha-normalisation), not on the text."""
     key = (relpath, name)
     if key not in _EQSITES:
-        import re
-        src = None
+        tree = None
         for mi in index.modules.values():
             if mi.relpath == relpath:
-                src = mi.src
+                tree = mi.tree
                 break
-        if src is None:
+        if tree is None:
             _EQSITES[key] = 1
         else:
-            _EQSITES[key] = len(re.findall(r'(?<![\w.])%s\s*(?:\[[^\]]*\]\s*)?\.eq\(' % re.escape(name), src))
+            n = 0
+            for node in ast.walk(tree):
+                if isinstance(node, ast.Call) and isinstance(node.func, ast.Attribute) and node.func.attr == 'eq':
+                    t = node.func.value
+                    while isinstance(t, ast.Subscript):
+                        t = t.value
+                    if isinstance(t, ast.Name) and t.id == name:
+                        n += 1
+            _EQSITES[key] = n
     return _EQSITES[key]
 
 
